@@ -373,6 +373,345 @@ static int main_adv(unsigned long seed, long ncoins, const char *outp) {
 	return 0;
 }
 
+
+// ===================================================================================================
+// n-party protocol: Flip() on real CachinKursawePetzoldShoupRBC objects over an in-memory transport.
+// One thread per party, exactly one runnable (baton); every poll of the transport is a scheduling point.
+// time() is the harness' virtual clock: it advances only when every live party has polled in vain since the last
+// progress, so time-outs cost nothing and no verdict depends on the wall clock.
+//   drv_coin np <seed> <executions> <trace-out> [scenario-filter]
+static time_t VNOW = 1000000000;
+extern "C" time_t time(time_t *t) { if (t) *t = VNOW; return VNOW; }
+// time-outs in virtual seconds: a party that waits in vain for a private share (TOP) must still be in time for the
+// next broadcast round of the others (TOB) - the synchrony assumption of the protocol; with equal values an honest
+// party that was denied a share misses the complaint round and is disqualified by the others
+static const time_t TOP = 2, TOB = 9;
+
+struct Dev {                           // how a party deviates (spec: CoinN.tla, dev record)
+	std::string kind;                  // honest | lib | byz | crash0 | crashopen | tamper
+	bool commit; std::vector<int> sd; std::vector<size_t> complain; std::string answer, open;
+};
+struct NP;
+class SimAio : public aiounicast {
+	public:
+		NP *w; int kind;                 // 0 private links, 1 links under the reliable broadcast
+		std::vector<std::deque<MemNet::Wire> > inq;   // per sender
+		size_t rr;
+		SimAio(NP *w_in, int kind_in, size_t n_in, size_t j_in):
+			aiounicast(n_in, j_in, aio_scheduler_roundrobin, TOP, false, false, false), w(w_in), kind(kind_in), inq(n_in), rr(0) {}
+		virtual bool Send(mpz_srcptr m, const size_t i_in, const time_t timeout = aio_timeout_default) {
+			std::vector<mpz_srcptr> v; v.push_back(m); return Send(v, i_in, timeout);
+		}
+		virtual bool Send(const std::vector<mpz_srcptr> &m, const size_t i_in, const time_t timeout = aio_timeout_default);
+		virtual bool Receive(mpz_ptr m, size_t &i_out, const size_t scheduler = aio_scheduler_default, const time_t timeout = aio_timeout_default) {
+			std::vector<mpz_ptr> v; v.push_back(m); return Receive(v, i_out, scheduler, timeout);
+		}
+		virtual bool Receive(std::vector<mpz_ptr> &m, size_t &i_out, const size_t scheduler = aio_scheduler_default, const time_t timeout = aio_timeout_default);
+		virtual void Reset(const size_t i_in, const bool input) { (void)i_in; (void)input; }
+		virtual ~SimAio() {}
+};
+struct NPParty {
+	Dev dev; bool started, finished, stop, fruitless, res;
+	SimAio *aioP, *aioB; CachinKursawePetzoldShoupRBC *rbc; JareckiLysyanskayaEDCF *edcf;
+	std::thread th; Mpz coin; std::string exc; std::ostringstream err;
+	std::vector<long> qdraws; std::vector<int> wpar;       // q-draws, parity of the 8-byte draws
+	std::vector<long> pc, ph;                              // polynomials (deviating harness party: chosen by the harness)
+	std::vector<size_t> ptp;                                // private messages sent per recipient (tampering)
+	std::set<std::string> bseen;
+	NPParty(): started(false), finished(false), stop(false), fruitless(false), res(false), aioP(NULL), aioB(NULL), rbc(NULL), edcf(NULL) {}
+};
+struct NP {
+	size_t n, t, trbc; Baton b; std::vector<NPParty*> p;
+	std::string idF, idS; std::string strF, strS;
+	std::vector<json> evbuf; long steps; bool honest_done;
+	NP(size_t n_in, size_t t_in, size_t trbc_in): n(n_in), t(t_in), trbc(trbc_in), steps(0), honest_done(false) {
+		std::ostringstream f, s;
+		f << "JareckiLysyanskayaEDCF::Flip()" << (mpz_srcptr)GP.v << (mpz_srcptr)GQ.v << (mpz_srcptr)GG.v << (mpz_srcptr)GH.v << n << t;
+		s << "JareckiLysyanskayaRVSS::Share()" << (mpz_srcptr)GP.v << (mpz_srcptr)GQ.v << (mpz_srcptr)GG.v << (mpz_srcptr)GH.v << n << t;
+		strF = f.str(); strS = s.str();
+		for (size_t i = 0; i < n; i++) {
+			NPParty *q = new NPParty();
+			q->aioP = new SimAio(this, 0, n, i); q->aioB = new SimAio(this, 1, n, i);
+			q->rbc = new CachinKursawePetzoldShoupRBC(n, trbc, i, q->aioB, aiounicast::aio_scheduler_roundrobin, TOB);
+			q->edcf = new JareckiLysyanskayaEDCF(n, t, GP, GQ, GG, GH, mpz_sizeinbase(GP, 2), mpz_sizeinbase(GQ, 2));
+			q->ptp.resize(n, 0);
+			p.push_back(q);
+		}
+		// the channel identifiers of the two phases, computed by a scratch object
+		MemNet sn(2); MemAio sa(&sn, 0);
+		CachinKursawePetzoldShoupRBC scratch(2, 0, 0, &sa, aiounicast::aio_scheduler_roundrobin, 0);
+		scratch.setID(strF); idF = mpz2s(scratch.ID); scratch.setID(strS); idS = mpz2s(scratch.ID);
+	}
+	~NP() { for (size_t i = 0; i < n; i++) { delete p[i]->edcf; delete p[i]->rbc; delete p[i]->aioP; delete p[i]->aioB; delete p[i]; } }
+	void progress() { for (size_t i = 0; i < n; i++) p[i]->fruitless = false; }
+	void yield(size_t i) {              // scheduling point of party i (called in its thread)
+		if (p[i]->stop) throw HarnessStop();
+		b.pass(MAIN); b.wait((int)i);
+		if (p[i]->stop) throw HarnessStop();
+	}
+	void account(size_t i) {            // attribute the draws made since the last switch to party i
+		std::vector<seam::Draw> &lg = seam::log();
+		for (size_t k = 0; k < lg.size(); k++) {
+			if (lg[k].len == LQ) { Mpz v(lg[k].hex, 16); mpz_mod(v, v, GQ); p[i]->qdraws.push_back(v.l()); }
+			else if (lg[k].len == 8 && p[i]->wpar.size() < 4) p[i]->wpar.push_back((int)(strtoul(lg[k].hex.substr(0, 2).c_str(), NULL, 16) & 1));
+		}
+		seam::clear_log();
+	}
+	void run(size_t i) { seam::clear_log(); b.pass((int)i); b.wait(MAIN); account(i); }
+	json qual_j(size_t i) { json a = json::array(); std::vector<size_t> &Q = p[i]->edcf->rvss->Qual; for (size_t k = 0; k < Q.size(); k++) a.push_back(Q[k]); return a; }
+	void on_own_broadcast(size_t i, const MemNet::Wire &m) {     // first copy of an r-send of party i in its own name
+		std::string key = m[0] + "/" + m[2];
+		if (p[i]->bseen.count(key)) return;
+		p[i]->bseen.insert(key);
+		bool isF = (m[0] == idF);
+		if (isF && m[2] == "1") {          // the first broadcast on the channel of Flip(): the share is revealed
+			if (p[i]->dev.kind == "crashopen") { p[i]->stop = true; throw HarnessStop(); }
+			if (p[i]->dev.kind == "byz") return;
+			json ev; ev["e"] = "Open"; ev["i"] = i; Mpz v(m[4]); ev["a"] = num(v);
+			json st = json::array();
+			for (size_t j = 0; j < n; j++) st.push_back(num(p[i]->edcf->rvss->C_ik[j][0]));
+			ev["stored"] = st; ev["qual"] = qual_j(i);
+			evbuf.push_back(ev);
+		}
+	}
+	void body(size_t i);
+	void byz_body(size_t i);
+	long eval(const std::vector<long> &cs, long x) { long q = GQ.l(), r = 0, pw = 1; for (size_t k = 0; k < cs.size(); k++) { r = (r + cs[k] * pw) % q; pw = (pw * x) % q; } return r; }
+};
+bool SimAio::Send(const std::vector<mpz_srcptr> &m, const size_t i_in, const time_t timeout) {
+	(void)timeout;
+	if (i_in >= n) return false;
+	if (w->p[j]->stop) throw HarnessStop();
+	MemNet::Wire wire;
+	for (size_t k = 0; k < m.size(); k++) wire.push_back(mpz2s(m[k]));
+	if (kind == 1 && wire.size() == 5 && wire[3] == "1" && wire[1] == std::to_string(j)) w->on_own_broadcast(j, wire);
+	if (kind == 0 && w->p[j]->dev.kind == "tamper" && wire.size() == 1) {
+		// faulty private link j -> i_in: the first message is the share, the second its companion
+		size_t cnt = w->p[j]->ptp[i_in]++;
+		int d = w->p[j]->dev.sd[i_in];
+		if (d == 2 && cnt < 2) { numWrite++; return true; }
+		if (d == 1 && cnt == 0) { Mpz v(wire[0]); mpz_add_ui(v, v, 1); wire[0] = v.s(); }
+	}
+	w->p[i_in]->aioB->w->progress();
+	(kind == 0 ? w->p[i_in]->aioP : w->p[i_in]->aioB)->inq[j].push_back(wire);
+	numWrite++;
+	return true;
+}
+bool SimAio::Receive(std::vector<mpz_ptr> &m, size_t &i_out, const size_t scheduler_in, const time_t timeout_in) {
+	size_t scheduler = (scheduler_in == aio_scheduler_default) ? aio_default_scheduler : scheduler_in;
+	time_t timeout = (timeout_in == aio_timeout_default) ? aio_default_timeout : timeout_in;
+	time_t entry = VNOW;
+	if (scheduler == aio_scheduler_direct && i_out >= n) return false;
+	do {
+		w->yield(j);
+		size_t from = n;
+		if (scheduler == aio_scheduler_direct) { if (!inq[i_out].empty()) from = i_out; }
+		else for (size_t k = 0; k < n; k++) { size_t c = (rr + k) % n; if (!inq[c].empty()) { from = c; rr = (c + 1) % n; break; } }
+		if (from < n) {
+			MemNet::Wire wire = inq[from].front(); inq[from].pop_front();
+			w->progress();
+			if (wire.size() != m.size()) { i_out = from; return false; }
+			for (size_t k = 0; k < m.size(); k++) mpz_set_str(m[k], wire[k].c_str(), 10);
+			i_out = from; numRead++;
+			return true;
+		}
+		w->p[j]->fruitless = true;
+	} while (VNOW < entry + timeout);
+	if (scheduler != aio_scheduler_direct) i_out = n;
+	return false;
+}
+void NP::body(size_t i) {
+	b.wait((int)i);
+	NPParty &P = *p[i];
+	try {
+		if (!P.stop) {
+			if (P.dev.kind == "byz") byz_body(i);
+			else P.res = P.edcf->Flip(i, P.coin, P.aioP, P.rbc, P.err, P.dev.kind == "lib");
+		}
+	} catch (HarnessStop &) { P.exc = "harness-stop"; }
+	catch (std::exception &ex) { P.exc = std::string("exception: ") + ex.what(); }
+	catch (...) { P.exc = "exception: unknown"; }
+	if (P.dev.kind != "byz" && P.exc != "harness-stop") {
+		json ev; ev["e"] = "Out"; ev["i"] = i; ev["res"] = P.res && P.exc.empty();
+		ev["coin"] = (P.res && P.exc.empty()) ? P.coin.l() : -1; ev["qual"] = qual_j(i);
+		if (!P.exc.empty()) ev["exc"] = P.exc;
+		evbuf.push_back(ev);
+	}
+	P.finished = true;
+	b.pass(MAIN);
+}
+// a deviating party played by the harness on the real transport objects: it walks through the message flow of the
+// protocol and deviates where its Dev record says so
+void NP::byz_body(size_t f) {
+	NPParty &P = *p[f];
+	CachinKursawePetzoldShoupRBC *rbc = P.rbc;
+	Mpz tmp, tmp2; long q = GQ.l();
+	rbc->setID(strF); rbc->setID(strS);
+	if (P.dev.commit) for (size_t k = 0; k <= t; k++) { Mpz c, a(P.pc[k]), h(P.ph[k]); commit(c, a, h); rbc->Broadcast(c); }
+	for (size_t j = 0; j < n; j++) if (j != f) for (size_t k = 0; k <= t; k++) if (!rbc->DeliverFrom(tmp, j)) break;
+	for (size_t j = 0; j < n; j++) if (j != f && P.dev.sd[j] != 2) {
+		Mpz a(eval(P.pc, j + 1) + P.dev.sd[j]), h(eval(P.ph, j + 1));
+		P.aioP->Send(a, j); P.aioP->Send(h, j);
+	}
+	for (size_t j = 0; j < n; j++) if (j != f) { size_t from = j; if (P.aioP->Receive(tmp, from, aiounicast::aio_scheduler_direct)) { from = j; P.aioP->Receive(tmp, from, aiounicast::aio_scheduler_direct); } }
+	for (size_t k = 0; k < P.dev.complain.size(); k++) { Mpz c((long)P.dev.complain[k]); rbc->Broadcast(c); }
+	{ Mpz e((long)n); rbc->Broadcast(e); }
+	std::vector<size_t> from_me;
+	for (size_t j = 0; j < n; j++) if (j != f) {
+		for (size_t cnt = 0; cnt <= n; cnt++) {
+			if (!rbc->DeliverFrom(tmp, j)) break;
+			size_t who = mpz_get_ui(tmp);
+			if (who >= n) break;
+			if (who == f) from_me.push_back(j);
+		}
+	}
+	if (P.dev.answer != "ignore") for (size_t k = 0; k < from_me.size(); k++) {
+		size_t l = from_me[k];
+		Mpz who((long)l), a(eval(P.pc, l + 1) + (P.dev.answer == "wrong" ? 1 : 0)), h(eval(P.ph, l + 1));
+		rbc->Broadcast(who); rbc->Broadcast(a); rbc->Broadcast(h);
+	}
+	{ Mpz e((long)n); rbc->Broadcast(e); }
+	for (size_t j = 0; j < n; j++) if (j != f) {
+		for (size_t cnt = 0; cnt <= n; cnt++) {
+			if (!rbc->DeliverFrom(tmp, j)) break;
+			if (mpz_get_ui(tmp) >= n) break;
+			if (!rbc->DeliverFrom(tmp, j) || !rbc->DeliverFrom(tmp2, j)) break;
+		}
+	}
+	rbc->unsetID();
+	if (P.dev.open != "none") {
+		Mpz a(P.pc[0] + (P.dev.open == "wrong" ? 1 : 0)), h(P.ph[0]);
+		rbc->Broadcast(a); rbc->Broadcast(h);
+	}
+	// keep the reliable broadcast of this party alive until the honest parties are through
+	size_t l;
+	while (!honest_done) rbc->Deliver(tmp, l, aiounicast::aio_scheduler_roundrobin, 0);
+	(void)q;
+}
+
+static json dev_j(const Dev &d, size_t n) {
+	json j; j["kind"] = d.kind; j["byz"] = (d.kind == "byz" || d.kind == "crash0" || d.kind == "crashopen" || d.kind == "lib");
+	j["commit"] = d.commit; j["sd"] = d.sd; j["complain"] = d.complain; j["answer"] = d.answer; j["open"] = d.open;
+	j["recon"] = (d.kind == "honest" || d.kind == "tamper"); j["checked"] = (d.kind == "honest" || d.kind == "tamper");
+	(void)n; return j;
+}
+static Dev honest_dev(size_t n) { Dev d; d.kind = "honest"; d.commit = true; d.sd.assign(n, 0); d.answer = "true"; d.open = "true"; return d; }
+
+// one execution: parties with their deviations, seeded random schedule
+static void run_np(size_t n, size_t t, size_t trbc, std::vector<Dev> devs, const json &src) {
+	SEQ = 0; VNOW = 1000000000;
+	NP w(n, t, trbc);
+	long q = GQ.l();
+	for (size_t i = 0; i < n; i++) {
+		w.p[i]->dev = devs[i];
+		if (devs[i].kind == "byz") for (size_t k = 0; k <= t; k++) { w.p[i]->pc.push_back((long)rnd(q)); w.p[i]->ph.push_back((long)rnd(q)); }
+	}
+	// start the threads (a party that is silent from the beginning has none)
+	for (size_t i = 0; i < n; i++) if (devs[i].kind != "crash0") {
+		w.p[i]->th = std::thread(&NP::body, &w, i); w.p[i]->started = true;
+		w.run(i);
+	}
+	long guard = 0;
+	for (;;) {
+		std::vector<size_t> live, cand;
+		bool hd = true;
+		for (size_t i = 0; i < n; i++) if (w.p[i]->started && !w.p[i]->finished) {
+			live.push_back(i);
+			if (devs[i].kind != "byz") hd = false;
+			if (!w.p[i]->fruitless) cand.push_back(i);
+		}
+		if (live.empty()) break;
+		if (hd) w.honest_done = true;
+		if (++guard > 4000000) { for (size_t k = 0; k < live.size(); k++) w.p[live[k]]->stop = true; json ev; ev["e"] = "Stuck"; w.evbuf.push_back(ev); }
+		if (cand.empty()) { VNOW += 1; w.progress(); continue; }
+		w.run(cand[rnd(cand.size())]);
+	}
+	for (size_t i = 0; i < n; i++) if (w.p[i]->started) w.p[i]->th.join();
+	// the log: Reset first (polynomials and deviations are known only now), then the events in their order
+	json ev; ev["e"] = "Reset"; ev["n"] = n; ev["t"] = t; ev["trbc"] = trbc; ev["grp"] = grp_j(); ev["src"] = src;
+	json polys = json::array(), dj = json::array();
+	for (size_t i = 0; i < n; i++) {
+		NPParty &P = *w.p[i];
+		Dev d = devs[i];
+		json c = json::array(), h = json::array();
+		if (d.kind == "byz") { c = P.pc; h = P.ph; }
+		else if (d.kind == "crash0") { for (size_t k = 0; k <= t; k++) { c.push_back(0); h.push_back(0); } }
+		else {
+			if (P.qdraws.size() != 2 * (t + 1)) { json e2; e2["e"] = "BadDraws"; e2["i"] = i; e2["n"] = P.qdraws.size(); w.evbuf.push_back(e2); P.qdraws.resize(2 * (t + 1), 0); }
+			for (size_t k = 0; k <= t; k++) { c.push_back(P.qdraws[2 * k]); h.push_back(P.qdraws[2 * k + 1]); }
+		}
+		if (d.kind == "lib") {      // the library's own deviating mode: which deviations it chose (its two coin tosses)
+			int flip_r = P.wpar.size() > 0 ? P.wpar[0] : 0, share_r = P.wpar.size() > 1 ? P.wpar[1] : 0;
+			(void)flip_r;
+			d.sd.assign(n, share_r ? 1 : 0); d.sd[i] = 0; d.answer = "wrong"; d.open = "wrong";
+		}
+		if (d.kind == "crash0") { d.commit = false; d.sd.assign(n, 2); d.sd[i] = 0; d.answer = "ignore"; d.open = "none"; }
+		if (d.kind == "crashopen") { d.open = "none"; }
+		json pj; pj["c"] = c; pj["h"] = h; polys.push_back(pj);
+		dj.push_back(dev_j(d, n));
+	}
+	ev["poly"] = polys; ev["dev"] = dj; ev["vclock"] = (long)(VNOW - 1000000000);
+	emit(ev);
+	for (size_t k = 0; k < w.evbuf.size(); k++) emit(w.evbuf[k]);
+	if (getenv("VERIF_VERBOSE")) for (size_t i = 0; i < n; i++) fprintf(stderr, "--- P%zu\n%s\n", i, w.p[i]->err.str().c_str());
+}
+
+static int main_np(unsigned long seed, long execs, const char *outp, const char *filter) {
+	std::ofstream out(outp); OUT = &out;
+	long done = 0;
+	for (long x = 0; done < execs && x < 100 * execs; x++) {
+		seam::seed(seed * 7919UL + x); seam::seed_harness(seed * 1000003UL + x);
+		size_t n = 2 + rnd(6);
+		size_t trbc = (n - 1) / 3, tmax = (n - 1) / 2;
+		size_t t = (rnd(3) == 0) ? rnd(tmax + 1) : trbc;
+		size_t budget = std::min(t, trbc);                   // deviating parties tolerated by both layers
+		std::vector<Dev> devs; for (size_t i = 0; i < n; i++) devs.push_back(honest_dev(n));
+		std::string scen = "honest";
+		size_t ndev = budget ? rnd(budget + 1) : 0;
+		std::vector<size_t> who;
+		while (who.size() < ndev) { size_t f = rnd(n); if (std::find(who.begin(), who.end(), f) == who.end()) who.push_back(f); }
+		for (size_t k = 0; k < who.size(); k++) {
+			size_t f = who[k]; Dev &d = devs[f];
+			size_t l1 = (f + 1 + rnd(n - 1)) % n;              // some other party
+			unsigned long c = rnd(14);
+			std::string label;
+			switch (c) {
+				case 0: d.kind = "lib"; break;
+				case 1: d.kind = "crash0"; break;
+				case 2: d.kind = "crashopen"; break;
+				case 3: {   // faulty private links from an honest party (at most t of them: it stays qualified; or more)
+					d.kind = "tamper"; size_t m = 1 + rnd(t + 1);
+					for (size_t c2 = 0; c2 < m; c2++) { size_t l = rnd(n); if (l != f) d.sd[l] = 1 + (int)rnd(2); }
+					break; }
+				case 4: d.kind = "tamper"; d.sd[l1] = 1; break;
+				// designed deviations of a party that walks through the protocol
+				case 5: d.kind = "byz"; label = "byz-wrongshare-ignore-wrongopen"; d.sd[l1] = 1; d.answer = "ignore"; d.open = "wrong"; break;
+				case 6: d.kind = "byz"; label = "byz-noshare-ignore-noopen"; d.sd[l1] = 2; d.answer = "ignore"; d.open = "none"; break;
+				case 7: d.kind = "byz"; label = "byz-wrongshare-answer-wrongopen"; d.sd[l1] = 1; d.answer = "true"; d.open = "wrong"; break;
+				case 8: d.kind = "byz"; label = "byz-wrongshare-wronganswer"; d.sd[l1] = 1; d.answer = "wrong"; d.open = "true"; break;
+				case 9: d.kind = "byz"; label = "byz-falsecomplaint-noopen"; d.complain.push_back(l1); d.open = "none"; break;
+				default: {  // ... and deviates at will
+					d.kind = "byz"; d.commit = rnd(8) != 0;
+					size_t m = rnd(t + 2);
+					for (size_t c2 = 0; c2 < m; c2++) { size_t l = rnd(n); if (l != f) d.sd[l] = 1 + (int)rnd(2); }
+					if (rnd(3) == 0) { size_t l = rnd(n); if (l != f) d.complain.push_back(l); }
+					static const char *A[] = {"true", "wrong", "ignore"}; static const char *O[] = {"true", "wrong", "none"};
+					d.answer = A[rnd(3)]; d.open = O[rnd(3)];
+					break; }
+			}
+			if (label.empty()) label = d.kind;
+			scen = (k == 0 ? label : scen + "+" + label);
+		}
+		if (filter && *filter && scen.find(filter) == std::string::npos) continue;
+		json src; src["seed"] = seed; src["k"] = x; src["scen"] = scen;
+		run_np(n, t, trbc, devs, src);
+		done++;
+	}
+	out.close();
+	printf("{\"executions\":%ld,\"events\":%ld}\n", done, NEV);
+	return 0;
+}
+
 int main(int argc, char **argv) {
 	install_terminate("drv_coin");
 	quiet_cerr();
@@ -385,6 +724,7 @@ int main(int argc, char **argv) {
 		if (!strcmp(argv[1], "hhrand")) return main_hhrand(strtoul(argv[2], NULL, 10), atol(argv[3]), argv[4]);
 		return main_adv(strtoul(argv[2], NULL, 10), atol(argv[3]), argv[4]);
 	}
-	fprintf(stderr, "usage: drv_coin hh <schedules> <trace> | hhrand <seed> <n> <trace> [p q g h] | adv <seed> <ncoins> <trace> [p q g h]\n");
+	if (argc >= 5 && !strcmp(argv[1], "np")) return main_np(strtoul(argv[2], NULL, 10), atol(argv[3]), argv[4], argc > 5 ? argv[5] : "");
+	fprintf(stderr, "usage: drv_coin np <seed> <n> <trace> [filter] | hh <schedules> <trace> | hhrand <seed> <n> <trace> [p q g h] | adv <seed> <ncoins> <trace> [p q g h]\n");
 	return 2;
 }
